@@ -39,10 +39,11 @@ def bounded_task():
         if hit3:
             r3.replay, r3.witness = hit3, hit3["input"]
         t3 = time.time()
-        hit4 = c03.include_cases()
+        hit4 = c03.include_cases() or c03.common_cases()
         r4 = OR(id=f"{PROP}.Bd.parser.included_declarations", status=REFUTED if hit4 else PROVED, kind="Bd", role="bounded", target="ford.reader.FortranReader.include (real)",
-                desc="twelve declaration / documentation lines in the four marker styles, written in a module and pulled in with INCLUDE: the same variables with the same documentation",
-                bound="1 pair of sources", cases=1, seconds=time.time() - t3, backend="enumeration")
+                desc="twelve declaration / documentation lines in the four marker styles, written in a module and pulled in with INCLUDE: the same variables with the same documentation; "
+                     "COMMON statements of one to three blocks with one comment: every block carries it",
+                bound="1 pair of sources + 6 COMMON statements", cases=7, seconds=time.time() - t3, backend="enumeration")
         if hit4:
             r4.replay, r4.witness = hit4, hit4["input"]
         return [r, r2, r3, r4]
@@ -66,6 +67,7 @@ def build(tier, seed):
             return rx_lex.comment_regex_obligations(PROP, "ford.reader._compile_docmark", rd._compile_docmark(m), m)
         tasks.append(Task(f"{PROP}.B.docmark[{m}]", PROP, "ford.reader._compile_docmark", dm))
     tasks.append(Task(f"{PROP}.B.meta_delimiters", PROP, "ford.utils.BEGIN_RE / END_RE", lambda: metadata.delimiter_obligations(PROP)))
+    tasks.append(Task(f"{PROP}.A.common_doc", PROP, "COMMON statement documentation", lambda: docstrings.common_doc_sharing(PROP, replay=lambda: __import__("bounded.c03", fromlist=["x"]).common_cases())))
     tasks.append(Task(f"{PROP}.S.include", PROP, "FortranReader.include", lambda: readerblocks.include_forwards_configuration(PROP, replay=lambda: __import__("bounded.c03", fromlist=["x"]).include_cases())))
     tasks.append(Task(f"{PROP}.S.converter_reset", PROP, "ford.sourceform.FortranBase.markdown", lambda: docstrings.converter_reset_obligations(PROP)))
 
